@@ -1,6 +1,6 @@
 (** Proofs about the coroutine-local model (C25). *)
 From OCV Require Import Base.Prelude Misc.Local Misc.LocalOracle.
-From Coq Require Import ZifyBool ZifyNat.
+From Coq Require Import ZifyBool ZifyNat Permutation.
 Open Scope Z_scope.
 
 (** ** one coroutine's map *)
@@ -197,18 +197,109 @@ Proof.
   rewrite Forall_forall in Hall. apply Hall. exact (nth_error_In _ _ Hn).
 Qed.
 
-Definition step_st (s : state) (o : op) : state := fst (fst (step s o)).
-Definition step_obs (s : state) (o : op) : obs := snd (fst (step s o)).
-Definition step_leak (s : state) (o : op) : bool := snd (step s o).
+Definition step_st (rel : bool) (s : state) (o : op) : state := fst (step rel s o).
+Definition step_obs (rel : bool) (s : state) (o : op) : obs := snd (step rel s o).
 
-Lemma run_from_cons s o ops : run_from s (o :: ops) = step_obs s o :: run_from (step_st s o) ops.
-Proof. unfold step_obs, step_st. cbn [run_from]. destruct (step s o) as [[s' r] d]. reflexivity. Qed.
+Lemma run_from_cons rel s o ops :
+  run_from rel s (o :: ops) = step_obs rel s o :: run_from rel (step_st rel s o) ops.
+Proof. unfold step_obs, step_st. cbn [run_from]. destruct (step rel s o) as [s' r]. reflexivity. Qed.
 
-Lemma leaks_from_cons s o ops : leaks_from s (o :: ops) = step_leak s o || leaks_from (step_st s o) ops.
-Proof. unfold step_leak, step_st. cbn [leaks_from]. destruct (step s o) as [[s' r] d]. reflexivity. Qed.
+Lemma final_from_cons rel s o ops : final_from rel s (o :: ops) = final_from rel (step_st rel s o) ops.
+Proof. unfold step_st. cbn [final_from]. destruct (step rel s o) as [s' r]. reflexivity. Qed.
 
-Lemma final_from_cons s o ops : final_from s (o :: ops) = final_from (step_st s o) ops.
-Proof. unfold step_st. cbn [final_from]. destruct (step s o) as [[s' r] d]. reflexivity. Qed.
+(** ** sorting and the identities a map holds *)
+Definition opt_id (o : option cell) : list Z := match o with Some (i, _) => [i] | None => [] end.
+
+Lemma insert_sorted_comm x y l :
+  insert_sorted x (insert_sorted y l) = insert_sorted y (insert_sorted x l).
+Proof.
+  induction l as [|a l IH]; cbn [insert_sorted].
+  - destruct (Z.leb_spec x y), (Z.leb_spec y x); try reflexivity; try lia.
+    assert (x = y) by lia. subst. reflexivity.
+  - destruct (Z.leb_spec y a), (Z.leb_spec x a); cbn [insert_sorted];
+      repeat match goal with |- context [?p <=? ?q] => destruct (Z.leb_spec p q) end;
+      try lia; try reflexivity.
+    + assert (x = y) by lia. subst. reflexivity.
+    + rewrite IH. reflexivity.
+Qed.
+
+Lemma sortZ_perm l l' : Permutation l l' -> sortZ l = sortZ l'.
+Proof.
+  induction 1 as [|x l l' _ IH|x y l|l l' l'' _ IH1 _ IH2]; cbn [sortZ fold_right].
+  - reflexivity.
+  - fold (sortZ l) (sortZ l'). rewrite IH. reflexivity.
+  - apply insert_sorted_comm.
+  - congruence.
+Qed.
+
+Lemma memZ_In x l : memZ x l = true <-> In x l.
+Proof.
+  induction l as [|y l IH]; cbn [memZ In]; [split; [discriminate | intros []]|].
+  rewrite orb_true_iff, IH. destruct (Z.eqb_spec y x); intuition congruence.
+Qed.
+
+Lemma nodupZ_In x l : In x (nodupZ l) <-> In x l.
+Proof.
+  induction l as [|y l IH]; cbn [nodupZ]; [reflexivity|].
+  destruct (memZ y l) eqn:E; cbn [In]; rewrite IH; [|reflexivity].
+  apply memZ_In in E. intuition congruence.
+Qed.
+
+Lemma nodupZ_NoDup l : NoDup (nodupZ l).
+Proof.
+  induction l as [|y l IH]; cbn [nodupZ]; [constructor|].
+  destruct (memZ y l) eqn:E; [exact IH|]. constructor; [|exact IH].
+  rewrite nodupZ_In, <- memZ_In, E. discriminate.
+Qed.
+
+Lemma flat_map_ext_on {A B} (g h : A -> list B) l :
+  (forall a, In a l -> g a = h a) -> flat_map g l = flat_map h l.
+Proof.
+  induction l as [|a l IH]; intros H; [reflexivity|]. cbn [flat_map].
+  rewrite (H a (or_introl eq_refl)), IH; [reflexivity|]. intros b Hb. apply H. right. exact Hb.
+Qed.
+
+Lemma flat_map_nil {A B} (l : list A) : flat_map (fun _ => @nil B) l = [].
+Proof. induction l as [|a l IH]; [reflexivity | exact IH]. Qed.
+
+(** the identities a map holds are those found by looking up every key of a duplicate-free list
+    that covers the map's keys *)
+Lemma ids_by_lookup : forall m L, NoDup (keys m) -> NoDup L -> incl (keys m) L ->
+  Permutation (ids m) (flat_map (fun k => opt_id (lm_get m k)) L).
+Proof.
+  induction m as [|[k0 [i0 v0]] m IH]; intros L Hm HL Hincl.
+  - cbn [ids map lm_get opt_id]. rewrite flat_map_nil. reflexivity.
+  - cbn [keys map fst] in Hm, Hincl. apply NoDup_cons_iff in Hm as [Hk0 Hm].
+    assert (Hin : In k0 L) by (apply Hincl; left; reflexivity).
+    apply in_split in Hin as (L1 & L2 & ->).
+    pose proof (NoDup_remove_1 _ _ _ HL) as HL'. pose proof (NoDup_remove_2 _ _ _ HL) as Hk0L.
+    assert (Hincl' : incl (keys m) (L1 ++ L2)).
+    { intros k Hk. assert (Hne : k <> k0) by (intros ->; exact (Hk0 Hk)).
+      specialize (Hincl k (or_intror Hk)). apply in_app_or in Hincl as [H|[H|H]];
+        [apply in_or_app; left; exact H | congruence | apply in_or_app; right; exact H]. }
+    specialize (IH (L1 ++ L2) Hm HL' Hincl').
+    set (g := fun k => opt_id (lm_get ((k0, (i0, v0)) :: m) k)).
+    assert (Hext : forall Lx, (forall k, In k Lx -> In k (L1 ++ L2)) ->
+              flat_map g Lx = flat_map (fun k => opt_id (lm_get m k)) Lx).
+    { intros Lx Hsub. apply flat_map_ext_on. intros k Hk. unfold g. cbn [lm_get].
+      destruct (Z.eqb_spec k0 k) as [<-|]; [|reflexivity]. exfalso. exact (Hk0L (Hsub _ Hk)). }
+    assert (E0 : g k0 = [i0]) by (unfold g; cbn [lm_get]; rewrite Z.eqb_refl; reflexivity).
+    rewrite flat_map_app.
+    change (Permutation (ids ((k0, (i0, v0)) :: m)) (flat_map g L1 ++ (g k0 ++ flat_map g L2))).
+    rewrite (Hext L1) by (intros k Hk; apply in_or_app; left; exact Hk).
+    rewrite (Hext L2) by (intros k Hk; apply in_or_app; right; exact Hk).
+    rewrite E0. cbn [ids map fst snd app]. fold (ids m). rewrite IH, flat_map_app. apply Permutation_middle.
+Qed.
+
+(** every key a map holds was named by a call of the history *)
+Definition KeysIn (ks : list Z) (s : state) : Prop :=
+  Forall (fun x => incl (keys (co_map x)) ks) (st_cos s).
+
+Lemma KeysIn_get ks s c x : KeysIn ks s -> get_co s c = Some x -> incl (keys (co_map x)) ks.
+Proof.
+  intros Hall H. apply get_co_some in H as (_ & Hn & _).
+  unfold KeysIn in Hall. rewrite Forall_forall in Hall. apply Hall. exact (nth_error_In _ _ Hn).
+Qed.
 
 Lemma Inv_upd s f c x m live g :
   Inv s f -> get_co s c = Some x -> NoDup (keys m) ->
@@ -221,13 +312,34 @@ Proof.
   - unfold set_map. cbn [st_cos]. apply Forall_upd; [exact Hall | exact Hm].
 Qed.
 
-Lemma step_inv strict ks s f o :
+Lemma step_keysin rel ks s o :
+  KeysIn ks s -> incl (op_keys o) ks -> KeysIn ks (step_st rel s o).
+Proof.
+  intros HK Hop. unfold step_st.
+  destruct o as [c k id v|c k|c k v|c k|c]; cbn [step op_keys] in *;
+    destruct (get_co s c) as [x|] eqn:Hx; try exact HK;
+    pose proof (KeysIn_get _ _ _ _ HK Hx) as Hkx.
+  - pose proof (lm_insert_keys (co_map x) k (id, v)) as Hins.
+    destruct (lm_insert (co_map x) k (id, v)) as [m old]. cbn [fst set_map] in *.
+    apply Forall_upd; [exact HK|]. cbn [co_map]. intros y Hy.
+    destruct (Hins y Hy) as [H| ->]; [exact (Hkx y H) | apply Hop; left; reflexivity].
+  - cbn [fst set_map]. apply Forall_upd; [exact HK|]. cbn [co_map]. rewrite lm_write_keys. exact Hkx.
+  - pose proof (lm_remove_keys (co_map x) k) as Hrem.
+    destruct (lm_remove (co_map x) k) as [m old]. cbn [fst set_map] in *.
+    apply Forall_upd; [exact HK|]. cbn [co_map]. intros y Hy. exact (Hkx y (Hrem y Hy)).
+  - destruct rel; cbn [fst]; apply Forall_upd; try exact HK; cbn [dead co_map keys map]; intros y [].
+Qed.
+
+Lemma list_eqb_Z_refl (l : list Z) : list_eqb Z.eqb l l = true.
+Proof. apply (list_eqb_eq Z.eqb); [intros a b; apply Z.eqb_eq | reflexivity]. Qed.
+
+Lemma step_inv rel strict ks s f o :
   Inv s f -> get_co s (op_co o) <> None ->
-  Inv (step_st s o) (spec_step f o)
-  /\ ((strict = true -> step_leak s o = false) -> ok_step strict ks f o (step_obs s o) = true).
+  Inv (step_st rel s o) (spec_step f o)
+  /\ ((strict = true -> rel = true /\ KeysIn ks s) -> ok_step strict ks f o (step_obs rel s o) = true).
 Proof.
   intros HI Hsome. pose proof HI as [Hl Hall].
-  unfold step_st, step_obs, step_leak.
+  unfold step_st, step_obs.
   destruct o as [c k id v|c k|c k v|c k|c]; cbn [op_co] in Hsome; cbn [step];
     destruct (get_co s c) as [x|] eqn:Hx; try contradiction; clear Hsome;
     pose proof (Inv_nodup _ _ _ _ HI Hx) as Hnd;
@@ -265,23 +377,26 @@ Proof.
       rewrite Hget. destruct (k' =? k); [reflexivity | symmetry; apply Hlk].
     + intros _. cbn [ok_step]. rewrite Hold, Hlk. apply option_cell_eqb_refl.
   - (* DropCo *)
-    cbn [fst snd]. split.
-    + split.
-      * intros c' k'. unfold lookup. rewrite (get_co_upd _ _ _ _ _ _ Hx). cbn [co_alive spec_step].
-        unfold sp_clear. destruct (c' =? c); [reflexivity | apply Hl].
-      * cbn [st_cos]. apply Forall_upd; [exact Hall | constructor].
-    + intros Hleak. cbn [ok_step]. destruct strict; [|reflexivity].
-      specialize (Hleak eq_refl). destruct (co_map x) as [|e m] eqn:Em; [|discriminate].
+    split.
+    + destruct rel; cbn [fst]; (split;
+        [ intros c' k'; unfold lookup; rewrite (get_co_upd _ _ _ _ _ _ Hx); cbn [co_alive spec_step];
+          unfold sp_clear; destruct (c' =? c); [reflexivity | apply Hl]
+        | cbn [st_cos]; apply Forall_upd; [exact Hall | constructor] ]).
+    + intros Hrel. destruct strict; [|destruct rel; reflexivity].
+      destruct (Hrel eq_refl) as [-> HK]. cbn [snd ok_step].
+      (* the destructors that ran are those of the values the specification map still holds *)
       unfold stored_ids.
-      assert (E : forall l, flat_map (fun k0 : Z => match f c k0 with Some (id, _) => [id] | None => [] end) l = []).
-      { induction l as [|a l IHl]; cbn [flat_map]; [reflexivity|]. rewrite <- Hlk, IHl. reflexivity. }
-      rewrite E. reflexivity.
+      rewrite (flat_map_ext_on _ (fun k0 => opt_id (lm_get (co_map x) k0)))
+        by (intros k0 _; rewrite Hlk; destruct (f c k0) as [[i0 v0]|]; reflexivity).
+      rewrite (sortZ_perm _ _ (ids_by_lookup (co_map x) (nodupZ ks) Hnd (nodupZ_NoDup ks)
+                 (fun k0 Hk0 => proj2 (nodupZ_In k0 ks) (KeysIn_get _ _ _ _ HK Hx k0 Hk0)))).
+      apply list_eqb_Z_refl.
 Qed.
 
-Lemma step_alive n s gone ids o ops :
+Lemma step_alive rel n s gone ids o ops :
   Alive n s gone -> wf_from n gone ids (o :: ops) = true ->
   get_co s (op_co o) <> None /\
-  exists gone' ids', Alive n (step_st s o) gone' /\ wf_from n gone' ids' ops = true.
+  exists gone' ids', Alive n (step_st rel s o) gone' /\ wf_from n gone' ids' ops = true.
 Proof.
   intros HA Hwf. cbn [wf_from] in Hwf.
   apply andb_true_iff in Hwf as [Hwf Hrest]. apply andb_true_iff in Hwf as [Hwf Hgone].
@@ -302,25 +417,27 @@ Proof.
   - cbn [fst]. exists gone, ids. split; [apply Hkeep; reflexivity | exact Hrest].
   - destruct (lm_remove (co_map x) k) as [m old]. cbn [fst].
     exists gone, ids. split; [apply Hkeep; reflexivity | exact Hrest].
-  - cbn [fst]. exists (c :: gone), ids. split; [|exact Hrest].
+  - exists (c :: gone), ids. split; [|exact Hrest].
     intros c' Hrange Hg. cbn [memZ] in Hg. apply orb_false_iff in Hg as [Hne Hg].
-    rewrite (get_co_upd _ _ _ _ _ _ Hx). rewrite (Z.eqb_sym c' c), Hne. apply HA; assumption.
+    destruct rel; cbn [fst]; rewrite (get_co_upd _ _ _ _ _ _ Hx); rewrite (Z.eqb_sym c' c), Hne; apply HA; assumption.
 Qed.
 
-Lemma ok_run n strict ks : forall ops s f gone ids,
+Lemma ok_run n rel strict ks : forall ops s f gone ids,
   Inv s f -> Alive n s gone -> wf_from n gone ids ops = true ->
-  (strict = true -> leaks_from s ops = false) ->
-  ok_from strict ks f ops (run_from s ops) = true.
+  (strict = true -> rel = true /\ KeysIn ks s /\ incl (keys_of ops) ks) ->
+  ok_from strict ks f ops (run_from rel s ops) = true.
 Proof.
-  induction ops as [|o ops IH]; intros s f gone ids HI HA Hwf Hleak; [reflexivity|].
+  induction ops as [|o ops IH]; intros s f gone ids HI HA Hwf Hstrict; [reflexivity|].
   rewrite run_from_cons. cbn [ok_from].
-  destruct (step_alive _ _ _ _ _ _ HA Hwf) as (Hsome & gone' & ids' & HA' & Hwf').
-  destruct (step_inv strict ks _ _ _ HI Hsome) as [HI' Hok].
+  destruct (step_alive rel _ _ _ _ _ _ HA Hwf) as (Hsome & gone' & ids' & HA' & Hwf').
+  destruct (step_inv rel strict ks _ _ _ HI Hsome) as [HI' Hok].
   apply andb_true_iff. split.
-  - apply Hok. intros Hs. specialize (Hleak Hs). rewrite leaks_from_cons in Hleak.
-    apply orb_false_iff in Hleak. tauto.
-  - eapply IH; eauto. intros Hs. specialize (Hleak Hs). rewrite leaks_from_cons in Hleak.
-    apply orb_false_iff in Hleak. tauto.
+  - apply Hok. intros Hs. destruct (Hstrict Hs) as (Hr & HK & _). auto.
+  - eapply IH; eauto. intros Hs. destruct (Hstrict Hs) as (Hr & HK & Hincl).
+    unfold keys_of in Hincl. cbn [flat_map] in Hincl. fold (keys_of ops) in Hincl.
+    split; [exact Hr|]. split.
+    + apply step_keysin; [exact HK | intros k Hk; apply Hincl, in_or_app; left; exact Hk].
+    + intros k Hk. apply Hincl, in_or_app. right. exact Hk.
 Qed.
 
 Lemma nth_error_repeat {A} (x : A) n i : (i < n)%nat -> nth_error (repeat x n) i = Some x.
@@ -350,35 +467,50 @@ Proof.
   eapply ok_run; eauto using init_inv, init_alive. discriminate.
 Qed.
 
-Theorem holds_outside n ops :
-  wf_C25 n ops = true -> no_defect_C25 n ops = true -> ok_C25 n ops (run_C25 n ops) = true.
+Lemma init_keysin ks n : KeysIn ks (init n).
 Proof.
-  intros Hwf Hnd. unfold ok_C25, run_C25.
-  eapply ok_run; eauto using init_inv, init_alive. intros _.
-  unfold no_defect_C25, defect_C25_values_leaked_on_drop in Hnd. destruct (leaks_from (init n) ops); [discriminate | reflexivity].
+  unfold KeysIn, init. cbn [st_cos]. apply Forall_forall. intros x Hx. apply repeat_spec in Hx. subst x.
+  intros y [].
 Qed.
 
-Theorem refuted_values_leaked_on_drop :
-  exists n ops, wf_C25 n ops = true /\ ok_C25 n ops (run_C25 n ops) = false.
+(** the whole property, release on drop included, on every well-formed history *)
+Theorem holds n ops : wf_C25 n ops = true -> ok_C25 n ops (run_C25 n ops) = true.
+Proof.
+  intros Hwf. unfold ok_C25, run_C25.
+  eapply ok_run; eauto using init_inv, init_alive. intros _.
+  split; [reflexivity|]. split; [apply init_keysin | apply incl_refl].
+Qed.
+
+(** before the repair of finding #27 the values a dropped coroutine still stored were leaked *)
+Theorem refuted_before_repair :
+  exists n ops, wf_C25 n ops = true /\ ok_C25 n ops (old_run_C25 n ops) = false.
 Proof.
   exists 1%nat, [Put 0 0 1 10; Put 0 1 2 20; DropCo 0]. split; vm_compute; reflexivity.
 Qed.
 
+(** ... and nothing else was wrong with it: the map clauses held *)
+Theorem old_map_refinement n ops : wf_C25 n ops = true -> ok_maps_C25 n ops (old_run_C25 n ops) = true.
+Proof.
+  intros Hwf. unfold ok_maps_C25, old_run_C25.
+  eapply ok_run; eauto using init_inv, init_alive. discriminate.
+Qed.
+
 (** ** a read returns the latest write *)
-Lemma wf_app_final n : forall h t s f gone ids,
+Lemma wf_app_final rel n : forall h t s f gone ids,
   Inv s f -> Alive n s gone -> wf_from n gone ids (h ++ t) = true ->
-  exists gone' ids', Inv (final_from s h) (fold_left spec_step h f)
-                     /\ Alive n (final_from s h) gone' /\ wf_from n gone' ids' t = true.
+  exists gone' ids', Inv (final_from rel s h) (fold_left spec_step h f)
+                     /\ Alive n (final_from rel s h) gone' /\ wf_from n gone' ids' t = true.
 Proof.
   induction h as [|o h IH]; intros t s f gone ids HI HA Hwf.
   - exists gone, ids. auto.
   - rewrite <- app_comm_cons in Hwf. rewrite final_from_cons. cbn [fold_left].
-    destruct (step_alive _ _ _ _ _ _ HA Hwf) as (Hsome & gone' & ids' & HA' & Hwf').
-    destruct (step_inv false [] _ _ _ HI Hsome) as [HI' _].
+    destruct (step_alive rel _ _ _ _ _ _ HA Hwf) as (Hsome & gone' & ids' & HA' & Hwf').
+    destruct (step_inv rel false [] _ _ _ HI Hsome) as [HI' _].
     eapply IH; eauto.
 Qed.
 
-Lemma run_from_app s h t : run_from s (h ++ t) = run_from s h ++ run_from (final_from s h) t.
+Lemma run_from_app rel s h t :
+  run_from rel s (h ++ t) = run_from rel s h ++ run_from rel (final_from rel s h) t.
 Proof.
   revert s; induction h as [|o h IH]; intros s; [reflexivity|].
   rewrite <- app_comm_cons, !run_from_cons, final_from_cons, IH. reflexivity.
@@ -409,16 +541,16 @@ Theorem reads_latest n h c k :
   last (run_C25 n (h ++ [Get c k])) OBad = ORes (latest c k (rev h)) [].
 Proof.
   intros Hwf. unfold run_C25. rewrite run_from_app.
-  destruct (wf_app_final n h [Get c k] (init n) spec0 [] [] (init_inv n) (init_alive n) Hwf)
+  destruct (wf_app_final true n h [Get c k] (init n) spec0 [] [] (init_inv n) (init_alive n) Hwf)
     as (gone' & ids' & [Hl _] & HA & Hwf').
-  destruct (step_alive _ _ _ _ _ _ HA Hwf') as (Hsome & _). cbn [op_co] in Hsome.
-  cbn [run_from step]. destruct (get_co (final_from (init n) h) c) as [x|] eqn:Hx; [|contradiction].
+  destruct (step_alive true _ _ _ _ _ _ HA Hwf') as (Hsome & _). cbn [op_co] in Hsome.
+  cbn [run_from step]. destruct (get_co (final_from true (init n) h) c) as [x|] eqn:Hx; [|contradiction].
   rewrite last_last. f_equal. rewrite <- spec_latest, <- Hl. unfold lookup. rewrite Hx. reflexivity.
 Qed.
 
 (** ** privacy: what a coroutine observes does not depend on the calls of the others *)
-Lemma step_other s o i : 0 <= op_co o -> i <> Z.to_nat (op_co o) ->
-  nth_error (st_cos (step_st s o)) i = nth_error (st_cos s) i.
+Lemma step_other rel s o i : 0 <= op_co o -> i <> Z.to_nat (op_co o) ->
+  nth_error (st_cos (step_st rel s o)) i = nth_error (st_cos s) i.
 Proof.
   intros H0 Hne. unfold step_st.
   destruct o as [c k id v|c k|c k v|c k|c]; cbn [op_co] in *; cbn [step];
@@ -428,14 +560,14 @@ Proof.
   - cbn [fst set_map st_cos]. apply nth_error_upd_other. auto.
   - destruct (lm_remove (co_map x) k) as [m old]. cbn [fst set_map st_cos].
     apply nth_error_upd_other. auto.
-  - cbn [fst st_cos]. apply nth_error_upd_other. auto.
+  - destruct rel; cbn [fst st_cos]; apply nth_error_upd_other; auto.
 Qed.
 
-Lemma step_same s s' o :
+Lemma step_same rel s s' o :
   nth_error (st_cos s) (Z.to_nat (op_co o)) = nth_error (st_cos s') (Z.to_nat (op_co o)) ->
-  step_obs s o = step_obs s' o
-  /\ nth_error (st_cos (step_st s o)) (Z.to_nat (op_co o))
-     = nth_error (st_cos (step_st s' o)) (Z.to_nat (op_co o)).
+  step_obs rel s o = step_obs rel s' o
+  /\ nth_error (st_cos (step_st rel s o)) (Z.to_nat (op_co o))
+     = nth_error (st_cos (step_st rel s' o)) (Z.to_nat (op_co o)).
 Proof.
   intros H. pose proof (get_co_ext _ _ _ H) as Hg. unfold step_obs, step_st.
   destruct o as [c k id v|c k|c k v|c k|c]; cbn [op_co] in *; cbn [step]; rewrite <- Hg;
@@ -445,19 +577,19 @@ Proof.
   - cbn [set_map st_cos]. split; [reflexivity | apply nth_error_upd_eq; exact H].
   - destruct (lm_remove (co_map x) k) as [m old]. cbn [fst snd set_map st_cos].
     split; [reflexivity | apply nth_error_upd_eq; exact H].
-  - split; [reflexivity | apply nth_error_upd_eq; exact H].
+  - destruct rel; cbn [fst snd st_cos]; (split; [reflexivity | apply nth_error_upd_eq; exact H]).
 Qed.
 
-Lemma private_gen c : 0 <= c -> forall ops s s',
+Lemma private_gen rel c : 0 <= c -> forall ops s s',
   (forall o, In o ops -> 0 <= op_co o) ->
   nth_error (st_cos s) (Z.to_nat c) = nth_error (st_cos s') (Z.to_nat c) ->
-  obs_of c ops (run_from s ops) = run_from s' (ops_of c ops).
+  obs_of c ops (run_from rel s ops) = run_from rel s' (ops_of c ops).
 Proof.
   intros Hc. induction ops as [|o ops IH]; intros s s' Hnn Heq; [reflexivity|].
   rewrite run_from_cons. cbn [obs_of ops_of filter].
   assert (Hnn' : forall o', In o' ops -> 0 <= op_co o') by (intros o' Ho'; apply Hnn; right; exact Ho').
   destruct (Z.eqb_spec (op_co o) c) as [E|E].
-  - rewrite run_from_cons. subst c. destruct (step_same s s' o Heq) as [Ho Hs]. rewrite Ho. f_equal.
+  - rewrite run_from_cons. subst c. destruct (step_same rel s s' o Heq) as [Ho Hs]. rewrite Ho. f_equal.
     apply IH; assumption.
   - apply IH; [assumption|]. rewrite step_other; [exact Heq | apply Hnn; left; reflexivity |].
     pose proof (Hnn o (or_introl eq_refl)). lia.
